@@ -689,7 +689,6 @@ func maxInt(a, b int) int {
 	return b
 }
 
-
 // plantTwins creates, for every directory and regular-file entry of the job's archive, an object at the path the
 // jailed extractor will use for it, resolved against the arena's root instead of the jail's.  Returns the
 // top-level directories it created.
